@@ -133,6 +133,9 @@ func checkC17(tier, replay string) int {
 		// the run's TMPDIR is a directory on a different file system than the cache directory (a rename between the two
 		// is refused with EXDEV; nothing about the cache may depend on where temporary files live)
 		OtherTmp bool `json:"tmpdir_on_other_fs,omitempty"`
+		// the disassembler does not check what becomes of its output (go tool objdump does not): only with faults that hit
+		// files, never pipes - whoever writes the cache file then has to notice
+		IgnWErr bool `json:"disassembler_ignores_write_errors,omitempty"`
 	}
 	type history struct {
 		Faults []fault `json:"faults"`
@@ -255,6 +258,13 @@ func checkC17(tier, replay string) int {
 		} else {
 			ctx.Capped("no private mount namespace with a tmpfs available: full-disk faults skipped")
 		}
+		// the size-limit and full-disk faults again with a disassembler that ignores its own write errors
+		for _, h := range append([]history{}, hs...) {
+			if f := h.Faults[0]; f.Kind == "fsize-limit" || f.Kind == "disk-full" {
+				f.IgnWErr = true
+				hs = append(hs, history{[]fault{f}})
+			}
+		}
 		// environment: the same faults with TMPDIR on another file system than the cache
 		if otherTmp != "" {
 			for _, h := range append([]history{}, hs...) {
@@ -312,18 +322,26 @@ func checkC17(tier, replay string) int {
 		if h.Faults[0].OtherTmp && otherTmp != "" {
 			tmpEnv = []string{"TMPDIR=" + otherTmp}
 		}
+		faultEnv := tmpEnv
+		if h.Faults[0].IgnWErr {
+			faultEnv = append(append([]string{}, tmpEnv...), "FAKE_IGNORE_WERR=1")
+		}
 		if f := h.Faults[0]; f.Kind == "disk-full" {
 			lst := lstOf(f)
 			dir, _ := os.MkdirTemp(scratch, "df")
 			defer os.RemoveAll(dir)
 			script := fmt.Sprintf(`d=%q; o=%q
 mount -t tmpfs -o size=%dk,mode=755 tmpfs "$d" || exit 97
-"$@" >"$o/o1" 2>"$o/e1"; echo $? >"$o/rc1"
+FAKE_IGNORE_WERR=$IGNW "$@" >"$o/o1" 2>"$o/e1"; echo $? >"$o/rc1"
 ls -l "$d" >"$o/ls1" 2>&1
 mount -o remount,size=65536k "$d" || exit 98
 "$@" >"$o/o2" 2>"$o/e2"; echo $? >"$o/rc2"
 exit 0`, filepath.Dir(cache), dir, 4*f.P)
-			r := runCmd(120*time.Second, pe.env(lst, tmpEnv), scratch, "unshare", "-m", "sh", "-c", script, "sh", pe.profiler, "-format", "config", bin)
+			ignw := "IGNW="
+			if f.IgnWErr {
+				ignw = "IGNW=1"
+			}
+			r := runCmd(120*time.Second, pe.env(lst, append(append([]string{}, tmpEnv...), ignw)), scratch, "unshare", "-m", "sh", "-c", script, "sh", pe.profiler, "-format", "config", bin)
 			atomic.AddInt64(&runs, 2)
 			rd := func(n string) string { b, _ := os.ReadFile(filepath.Join(dir, n)); return string(b) }
 			rc1, rc2 := strings.TrimSpace(rd("rc1")), strings.TrimSpace(rd("rc2"))
@@ -359,7 +377,7 @@ exit 0`, filepath.Dir(cache), dir, 4*f.P)
 			case "kill-profiler-after":
 				r = runProf(bin, last, append([]string{fmt.Sprintf("FAKE_CUT=%d", f.P), "FAKE_KILL=parent"}, tmpEnv...))
 			case "fsize-limit":
-				r = runProf(bin, last, tmpEnv, "prlimit", fmt.Sprintf("--fsize=%d", f.P))
+				r = runProf(bin, last, faultEnv, "prlimit", fmt.Sprintf("--fsize=%d", f.P))
 			case "tool-missing":
 				r = runCmd(60*time.Second, []string{"PATH=/nonexistent-dir", "HOME=" + filepath.Join(scratch, "home"), "USER=root"}, scratch, pe.profiler, "-format", "config", bin)
 			case "kill-at-write", "err-at-write":
@@ -726,7 +744,7 @@ exit 0`, filepath.Dir(cache), dir, 4*f.P)
 	if straceUnavailable > 0 {
 		ctx.Capped("strace not available: write-level crash points skipped")
 	}
-	ctx.Cov["rule"] = "histories run1(fault)[; run2(fault')]; run(normal) on the real profiler binary with a fake `go` tool: disassembler prints the first p bytes of the listing and exits 1 or is killed (quick: every line boundary, every byte of the first two lines and of the execve site, around every 4096-byte flush boundary of a 20 kB listing; thorough: every byte), tool missing from PATH, the profiler itself killed with SIGKILL after the disassembler produced p bytes (every 1024 bytes of a 20 kB listing), SIGKILL or ENOSPC injected by strace at the N-th write(2) of every thread of the profiler and of its children (N=1..18, counted per thread: log lines, every block of the cache file, the emitted profile, the disassembler's writes), a file size limit L (RLIMIT_FSIZE, standing for a full disk; L around the hash line, around every 4096-byte boundary and around the complete size) that hits whoever writes the cache file, the file system holding the cache directory full after P pages for every P up to the listing's size (private mount namespace, tmpfs of that size over the cache directory, enlarged before the normal run), the write faults, size limits and full-disk runs again with TMPDIR on another file system than the cache directory (tmpfs), and depth-2 fault sequences at line granularity; oracle: the final normal run prints exactly the cold-cache profile or exits non-zero, and a reused cache file equals the complete one; replacement histories: the binary at the same path is replaced by another one (other architecture; same file with bytes of .text flipped, i.e. identical Go build id; also with a modification time two hours before the cache file's), with and without an EIO injected at the N-th read while hashing, and with the disassembler failing for the new binary while the old binary's complete cache file is still there (tool missing; exit 1 after all, half or none of the output; killed): a run that exits 0 must print the new binary's cold profile, and so must the normal run after it; overlapping runs: run A on a binary is paused after its disassembler printed pA bytes (6 values), run B on the same binary then completes, fails after q bytes or is killed after q bytes (5 values), A continues, then a normal run - A's own profile and the next run's must be the cold profile or an error; the same with the cache holding an older build's complete disassembly, A failing / being killed after the pause and an ordinary run B started while A is paused (B, too, must print the new build's profile or fail); distinct_nontrivial = histories"
+	ctx.Cov["rule"] = "histories run1(fault)[; run2(fault')]; run(normal) on the real profiler binary with a fake `go` tool: disassembler prints the first p bytes of the listing and exits 1 or is killed (quick: every line boundary, every byte of the first two lines and of the execve site, around every 4096-byte flush boundary of a 20 kB listing; thorough: every byte), tool missing from PATH, the profiler itself killed with SIGKILL after the disassembler produced p bytes (every 1024 bytes of a 20 kB listing), SIGKILL or ENOSPC injected by strace at the N-th write(2) of every thread of the profiler and of its children (N=1..18, counted per thread: log lines, every block of the cache file, the emitted profile, the disassembler's writes), a file size limit L (RLIMIT_FSIZE, standing for a full disk; L around the hash line, around every 4096-byte boundary and around the complete size) that hits whoever writes the cache file, the file system holding the cache directory full after P pages for every P up to the listing's size (private mount namespace, tmpfs of that size over the cache directory, enlarged before the normal run), the size limits and full-disk runs again with a disassembler that ignores its own write errors and exits 0 (as `go tool objdump` does; these faults cannot hit the pipe it writes to on the unchanged tree), the write faults, size limits and full-disk runs again with TMPDIR on another file system than the cache directory (tmpfs), and depth-2 fault sequences at line granularity; oracle: the final normal run prints exactly the cold-cache profile or exits non-zero, and a reused cache file equals the complete one; replacement histories: the binary at the same path is replaced by another one (other architecture; same file with bytes of .text flipped, i.e. identical Go build id; also with a modification time two hours before the cache file's), with and without an EIO injected at the N-th read while hashing, and with the disassembler failing for the new binary while the old binary's complete cache file is still there (tool missing; exit 1 after all, half or none of the output; killed): a run that exits 0 must print the new binary's cold profile, and so must the normal run after it; overlapping runs: run A on a binary is paused after its disassembler printed pA bytes (6 values), run B on the same binary then completes, fails after q bytes or is killed after q bytes (5 values), A continues, then a normal run - A's own profile and the next run's must be the cold profile or an error; the same with the cache holding an older build's complete disassembly, A failing / being killed after the pause and an ordinary run B started while A is paused (B, too, must print the new build's profile or fail); distinct_nontrivial = histories"
 	ctx.Assumptions = []string{"the fake go tool stands for any disassembler failure; the cache path is <home>/.seccomp-profiler/<base>-<sha256(abs)[:10]> as the profiler logs it", "strace injection realises crashes at write granularity"}
 	if replay != "" {
 		return finishReplay(ctx)
